@@ -15,7 +15,11 @@ RULE = (
     'cases = one call of a geometry kernel or data-array accessor on 1..64 generated '
     '(source, sample, detector) triples / beam pairs: norms log-uniform 1e-6..1e6 in a random '
     'length unit, forced angle classes {0, 1e-12, 1e-9, 1e-6, pi/2+-1e-12, pi-1e-9, pi-1e-12, pi}, '
-    'plus the invariance family (swap, 2^k and arbitrary rescale, SO(3) rotation, translation); '
+    'plus the invariance family (swap, 2^k and arbitrary rescale, SO(3) rotation, translation); plus, in every '
+    'shard, data that carries its own L1 / L2 / Ltotal (effective, calibrated, other unit, float32 / integer) or '
+    'the beams instead of the positions, two_theta through every public route, and per-pixel beams / positions '
+    'that are nearly uniform (spread 0, 1e-12..1e-9 relative; noise, drift, one odd pixel; either or both beams; '
+    'beam norms 1e-6..1e5; 1-d and 2-d layouts); '
     'non-trivial unless a single axis-aligned pair; distinct = (function, unit, shape class, '
     'angle class, norm decade) signatures'
 )
@@ -189,9 +193,13 @@ class Monitors:
 
 
 # ------------------------------------------------------------ generators ---
-def gen_pairs(rng, n, ctx, cls=None):
-    """n beam pairs (float64, in arbitrary length units) with forced angle classes."""
-    a = geom.random_unit(rng, n) * (10.0 ** rng.uniform(-6, 6, size=(n, 1)))
+def gen_pairs(rng, n, ctx, cls=None, a=None):
+    """n beam pairs (float64, in arbitrary length units) with forced angle classes.
+
+    With ``a`` given (n, 3) the first beams are taken as they are (class 'axis' then only affects the second beam).
+    """
+    given = a is not None
+    a = np.array(a, dtype=np.float64) if given else geom.random_unit(rng, n) * (10.0 ** rng.uniform(-6, 6, size=(n, 1)))
     classes = rng.integers(0, len(ANGLE_CLASSES), size=n) if cls is None else np.full(n, cls)
     perp = geom.perpendicular_unit(rng, a)
     ang = np.empty(n, dtype=si.LD)
@@ -213,7 +221,7 @@ def gen_pairs(rng, n, ctx, cls=None):
     # 'axis': the incident beam lies exactly along a coordinate axis (either sign, exact zeros), as in the
     # usual lab frames; the scattered beam is generic or axis-aligned too
     for i, c in enumerate(classes):
-        if ANGLE_CLASSES[c] == 'axis':
+        if ANGLE_CLASSES[c] == 'axis' and not given:
             e = np.zeros(3)
             e[rng.integers(0, 3)] = 1.0 if rng.random() < 0.5 else -1.0
             a[i] = e * float(np.linalg.norm(a[i]))
@@ -481,10 +489,367 @@ def direct_case(rng, ctx, K):
     return (name, u1, u2, shape, tuple(sorted(set(classes))), dec), trivial
 
 
+# ------------------------------------------- supplied L1 / L2 / Ltotal coordinates ---
+# Data that carries its own flight-path lengths next to the positions (or next to the beams): the lengths are
+# whatever the instrument definition says (effective, calibrated, another unit); the scattering angle is defined
+# by the two beams alone.
+SUPPLIED_FORMS = ('effective L1', 'calibrated per-pixel L2', 'L1 in another length unit',
+                  'L2 in another length unit', 'L1 and L2', 'Ltotal', 'L1, L2 and Ltotal',
+                  'beams instead of positions', 'beams and lengths instead of positions')
+LENGTH_DTYPES = ('float64', 'float32', 'int64')
+TWO_THETA_ROUTES = ('scn.two_theta', 'scn.convert', 'graph.beamline.beamline(scatter=True)',
+                    'graph.beamline.two_theta()', 'scn.conversion_graph(tof->dspacing)')
+
+
+def _other_unit(rng, unit):
+    return [u for u in LEN_UNITS if u != unit][int(rng.integers(0, len(LEN_UNITS) - 1))]
+
+
+def _length(rng, values, unit, dtype, per_pixel):
+    """A length coordinate holding ``values`` (float64 numbers) in ``unit`` as ``dtype``."""
+    values = np.asarray(values, dtype=np.float64)
+    if dtype == 'int64':
+        values = np.ceil(values) + rng.integers(0, 3, size=values.shape)
+    if per_pixel:
+        return sc.array(dims=['pixel'], values=np.broadcast_to(values, per_pixel).copy(), unit=unit, dtype=dtype)
+    return sc.scalar(values.item() if values.ndim == 0 else values.flat[0], unit=unit, dtype=dtype)
+
+
+def _two_theta_routes(scn, da):
+    from scippneutron.conversion.graph import beamline as GB
+
+    return {
+        'scn.two_theta': lambda: scn.two_theta(da),
+        'scn.convert': lambda: scn.convert(da, 'tof', 'two_theta', scatter=True).coords['two_theta'],
+        'graph.beamline.beamline(scatter=True)': lambda: da.transform_coords(
+            'two_theta', graph=GB.beamline(scatter=True)).coords['two_theta'],
+        'graph.beamline.two_theta()': lambda: da.transform_coords(
+            'two_theta', graph=GB.two_theta()).coords['two_theta'],
+        'scn.conversion_graph(tof->dspacing)': lambda: da.transform_coords(
+            'two_theta', graph=scn.conversion_graph('tof', 'dspacing', scatter=True, energy_mode='elastic')
+        ).coords['two_theta'],
+    }
+
+
+def _judge_two_theta_routes(ctx, scn, da, want, case, evname, **keys):
+    """two_theta of a container through every public route against the exact angle of the float64 beams."""
+    for route, f in _two_theta_routes(scn, da).items():
+        try:
+            r = f()
+        except Exception as e:  # noqa: BLE001
+            ctx.violation('two_theta_route_raised', f'{route} raised {type(e).__name__}: {e} ({case["family"]})',
+                          dict(case, route=route), route=route, **keys)
+            continue
+        try:
+            g = np.asarray(r.values).astype(si.LD)
+            err = np.abs(np.broadcast_to(g, np.shape(want)) - want) if np.ndim(g) <= np.ndim(want) else np.array(
+                [np.inf])
+            d = float(np.max(err))
+            bad_unit = r.unit != sc.Unit('rad')
+        except Exception:  # noqa: BLE001
+            ctx.oracle_error(evname)
+            continue
+        ctx.event(evname)
+        ctx.event(evname + ':' + route)
+        ctx.dev(evname, d)
+        if bad_unit or not d <= TOL_ANGLE:
+            ctx.violation('two_theta_not_from_beams',
+                          f'{route}: two_theta differs from the Euclidean angle of the two beams by {d:.3g} rad '
+                          f'(unit {r.unit}); {case["family"]}', dict(case, route=route, abserr=d), route=route, **keys)
+
+
+def supplied_lengths_case(rng, ctx, scn, mon, form, container, dtype):
+    n = int(rng.integers(2, 25))
+    unit = LEN_UNITS[rng.integers(0, 5)]
+    a, b, classes = gen_pairs(rng, n, ctx)
+    sample = rng.normal(size=3) * 10.0 ** rng.uniform(-3, 3) * (rng.random() < 0.7)
+    source = sample - a[0]
+    pos = sample[None, :] + b
+    inc = sample - source
+    sca = pos - sample[None, :]
+    beams_only = form.startswith('beams')
+    if beams_only:
+        coords = {'incident_beam': vec(inc, unit), 'scattered_beam': vec(sca, unit)}
+    else:
+        coords = {'source_position': vec(source, unit), 'sample_position': vec(sample, unit),
+                  'position': vec(pos, unit)}
+    l1 = float(np.linalg.norm(inc))
+    l2 = np.linalg.norm(sca, axis=1)
+    supplied = {}
+    if form in ('effective L1', 'L1 and L2', 'L1, L2 and Ltotal', 'beams and lengths instead of positions'):
+        # a guide makes the flight path longer than the straight distance; a moderator correction may shorten it
+        supplied['L1'] = _length(rng, l1 * rng.uniform(0.8, 1.3), unit, dtype, None)
+    if form in ('calibrated per-pixel L2', 'L1 and L2', 'L1, L2 and Ltotal', 'beams and lengths instead of positions'):
+        supplied['L2'] = _length(rng, l2 * (1 + rng.uniform(-1e-2, 1e-2, size=n)), unit, dtype, (n,))
+    if form == 'L1 in another length unit':
+        u = _other_unit(rng, unit)
+        supplied['L1'] = _length(rng, l1 * float(si.factor(sc.Unit(unit)) / si.factor(sc.Unit(u))), u, 'float64', None)
+    if form == 'L2 in another length unit':
+        u = _other_unit(rng, unit)
+        supplied['L2'] = _length(rng, l2 * float(si.factor(sc.Unit(unit)) / si.factor(sc.Unit(u))), u, 'float64', (n,))
+    if form in ('Ltotal', 'L1, L2 and Ltotal'):
+        supplied['Ltotal'] = _length(rng, (l1 + l2) * rng.uniform(0.9, 1.2), unit, dtype,
+                                     (n,) if rng.random() < 0.7 else None)
+    same_unit = all(v.unit == sc.Unit(unit) for v in supplied.values())
+    da = make_container(container, {**coords, **supplied}, n)
+    ctx.hit('supplied coordinates: ' + form)
+    ctx.hit('supplied length dtype ' + dtype)
+    case = {'family': 'data with supplied ' + ', '.join(supplied or ['beams']) + ' (' + form + ')', 'form': form,
+            'container': container, 'unit': unit, 'n': n,
+            'supplied': {k: describe(v) for k, v in supplied.items()},
+            'coords': {k: describe(v) for k, v in coords.items()}}
+    mon.origin = 'accessor'
+    try:
+        want_tt = geom.angle(np.broadcast_to(inc, sca.shape), sca)
+        _judge_two_theta_routes(ctx, scn, da, want_tt, case, 'supplied_lengths.two_theta', form=form)
+        # every coordinate that is NOT supplied keeps its Euclidean definition; a supplied one takes precedence
+        # in the unchanged tree and is not judged (the property speaks about positions, not about stored lengths)
+        checks = {'incident_beam': ('exact', np.broadcast_to(inc, (3,))), 'scattered_beam': ('exact', sca)}
+        if 'L1' not in supplied:
+            checks['L1'] = ('rel', geom.norm(inc))
+        if 'L2' not in supplied:
+            checks['L2'] = ('rel', geom.norm(sca))
+        if 'Ltotal' not in supplied and not beams_only:
+            checks['Ltotal_noscatter'] = ('rel', geom.norm(pos - source[None, :]))
+        if not supplied:
+            checks['Ltotal_scatter'] = ('rel', geom.norm(inc).astype(np.float64).astype(si.LD)
+                                        + geom.norm(sca).astype(np.float64).astype(si.LD))
+        ctx.count('not judged: accessor of a supplied length coordinate', len(supplied))
+        if supplied and same_unit and 'Ltotal' not in supplied:
+            # L1 + L2 of whatever lengths the data carries: judged by the total_beam_length kernel monitor
+            scn.Ltotal(da, scatter=True)
+        for k, (how, w) in checks.items():
+            try:
+                r = (scn.Ltotal(da, scatter=k.endswith('_scatter')) if k.startswith('Ltotal')
+                     else getattr(scn, k)(da))
+            except Exception as e:  # noqa: BLE001
+                ctx.violation('accessor_raised', f'scippneutron.{k} on a {container} with supplied '
+                              f'{sorted(supplied)} raised {type(e).__name__}: {e}', dict(case, accessor=k),
+                              container=container)
+                continue
+            g = np.asarray(r.values)
+            ctx.event('supplied_lengths.' + k)
+            if how == 'exact':
+                bad = not np.array_equal(np.broadcast_to(g, np.shape(w)), w)
+                d = float(bad)
+            else:
+                d = float(np.max(si.relerr(np.broadcast_to(g.astype(si.LD), np.shape(w)), w)))
+                bad = not d <= 8 * EPS
+            if bad or r.unit != sc.Unit(unit):
+                ctx.violation('accessor', f'scippneutron.{k} on a {container} that also carries {sorted(supplied)}: '
+                              f'deviation {d:.3g} from the Euclidean definition or wrong unit ({r.unit})',
+                              dict(case, accessor=k), accessor=k)
+    finally:
+        mon.origin = 'direct'
+    return ('supplied', form, container, unit, dtype, tuple(sorted(set(classes))))
+
+
+# ------------------------------------------------- nearly uniform per-pixel beams ---
+# Per-pixel beams that are almost, but not exactly, the same vector (sample drifting by picometres per scan
+# point, source/sample position stored once per pixel with calibration noise): every pixel is judged against
+# its OWN beam pair.
+SPREADS = ('0', '1e-12', '1e-11', '1e-10', '1e-9')          # |beam_i - beam_0| <= spread * |beam_0|
+SPREAD_FORMS = ('noise', 'drift', 'one pixel differs')
+UNIFORM_WHICH = ('incident', 'scattered', 'both')
+NORM_DECADES = (-6, -5, -3, 0, 3, 5)
+NU_LAYOUTS = ('pixel / pixel', '2d / 2d', 'uniform beam along the outer dim only', 'other beam scalar')
+NU_POSITIONS = ('per-pixel source_position', 'per-pixel sample_position', 'per-pixel source and sample position')
+
+
+def nearly_uniform(rng, base, n, spread, form):
+    """(n, 3) float64 copies of ``base``, each within spread * |base| of row 0 (= base itself)."""
+    base = np.asarray(base, dtype=np.float64)
+    rel = float(spread)
+    d = np.zeros((n, 3))
+    if form == 'noise':
+        d = geom.random_unit(rng, n) * rng.uniform(0.3, 1.0, size=(n, 1))
+    elif form == 'drift':
+        d = np.linspace(0.0, 1.0, n)[:, None] * geom.random_unit(rng, 1)
+    else:
+        j = int(rng.integers(0, n))
+        u = geom.random_unit(rng, 1)[0] * rng.uniform(0.3, 1.0)
+        if j == 0:
+            d[1:] = u  # pixel 0 is the odd one
+        else:
+            d[j] = u
+    d[0] = 0.0
+    return base[None, :] + (rel * float(np.linalg.norm(base))) * d
+
+
+def _base_beam(rng, decade):
+    v = geom.random_unit(rng, 1)[0]
+    if rng.random() < 0.25:  # beam along a coordinate axis of the lab frame
+        v = np.zeros(3)
+        v[rng.integers(0, 3)] = 1.0 if rng.random() < 0.5 else -1.0
+    return v * 10.0 ** (decade + rng.uniform(0, 1))
+
+
+def nearly_uniform_kernel_case(rng, ctx, K, which, spread, form, decade, layout, u1, u2):
+    k, m = int(rng.integers(2, 6)), int(rng.integers(2, 9))
+    n = k * m
+    base = _base_beam(rng, decade)
+    if which == 'both':
+        a = nearly_uniform(rng, base, n, spread, form)
+        _, b0, classes = gen_pairs(rng, 1, ctx, a=base[None, :])
+        b = nearly_uniform(rng, b0[0], n, spread, SPREAD_FORMS[int(rng.integers(0, 3))])
+    else:
+        u = nearly_uniform(rng, base, n, spread, form)
+        if layout == 'other beam scalar':
+            _, o, classes = gen_pairs(rng, 1, ctx, a=base[None, :])
+        else:
+            _, o, classes = gen_pairs(rng, n, ctx, a=u)
+        a, b = (u, o) if which == 'incident' else (o, u)
+
+    def shaped(x, uniform, unit):
+        if len(x) == 1:
+            return vec(x[0], unit)
+        if layout in ('pixel / pixel', 'other beam scalar'):
+            return vec(x, unit)
+        x = x.reshape(k, m, 3)
+        if layout == 'uniform beam along the outer dim only' and uniform:
+            return vec(np.ascontiguousarray(x[:, 0, :]), unit, dims=('run',))
+        return vec(x, unit, dims=('run', 'pixel'))
+
+    va = shaped(a, which in ('incident', 'both'), u1)
+    vb = shaped(b, which == 'scattered', u2)
+    ctx.hit('nearly uniform per-pixel beams: ' + which)
+    ctx.hit('nearly uniform spread ' + spread)
+    ctx.hit('nearly uniform form: ' + form)
+    ctx.hit(f'nearly uniform beam norm 1e{decade}')
+    ctx.hit('nearly uniform layout: ' + layout)
+    # the kernel monitors judge every return against the per-pixel oracle
+    fwd = K.two_theta(incident_beam=va, scattered_beam=vb)
+    rev = K.two_theta(incident_beam=vb, scattered_beam=va)
+    K.L1(incident_beam=va)
+    K.L2(scattered_beam=vb)
+    ctx.event('nearly_uniform.kernel')
+    f, r = np.asarray(fwd.values).astype(si.LD), np.asarray(rev.values).astype(si.LD)
+    if fwd.dims != rev.dims:
+        r = np.asarray(sc.transpose(rev, dims=fwd.dims).values).astype(si.LD)
+    d = float(np.max(np.abs(f - r)))
+    ctx.event('invariance.swap (nearly uniform)')
+    ctx.dev('invariance.swap, nearly uniform beams (fraction of bound)', d / (2 * TOL_ANGLE))
+    if d > 2 * TOL_ANGLE:
+        ctx.violation('invariance', f'two_theta changes under swap of nearly uniform per-pixel beams: {d:.3g} rad',
+                      {'family': 'nearly uniform', 'which': which, 'spread': spread, 'form': form,
+                       'layout': layout, 'units': [u1, u2], 'a': describe(va), 'b': describe(vb)},
+                      transform='swap')
+    return ('nearly_uniform', which, spread, form, decade, layout, u1, u2)
+
+
+def nearly_uniform_positions_case(rng, ctx, scn, mon, where, spread, form, decade, unit, container):
+    n = int(rng.integers(4, 33))
+    a0 = _base_beam(rng, decade)
+    if spread == 'independent':
+        a = geom.random_unit(rng, n) * 10.0 ** (decade + rng.uniform(0, 1, size=(n, 1)))
+        a0 = a[0]
+    else:
+        a = nearly_uniform(rng, a0, n, spread, form)
+    origin = np.zeros(3) if rng.random() < 0.5 else rng.normal(size=3) * 0.3 * float(np.linalg.norm(a0))
+    _, b, classes = gen_pairs(rng, n, ctx, a=a)
+    drift = a - a0[None, :]
+    if where == 'per-pixel source_position':
+        sample = origin
+        source = sample[None, :] - a
+        pos = sample[None, :] + b
+    elif where == 'per-pixel sample_position':
+        source = origin - a0
+        sample = origin[None, :] + drift           # the sample moves, source and detectors stay
+        pos = origin[None, :] + b
+    else:
+        sample = origin[None, :] + drift
+        source = (origin - a0)[None, :] - drift[::-1]
+        pos = origin[None, :] + b
+    # what the code sees are the float64 positions; the beams are their IEEE differences
+    inc = sample - source
+    sca = pos - sample
+    coords = {'source_position': vec(source, unit), 'sample_position': vec(sample, unit), 'position': vec(pos, unit)}
+    da = make_container(container, coords, n)
+    ctx.hit('nearly uniform positions: ' + where)
+    ctx.hit('per-pixel positions spread ' + spread)
+    case = {'family': f'{where}, spread {spread} ({form}), beam norm 1e{decade}', 'container': container,
+            'unit': unit, 'n': n, 'coords': {k: describe(v) for k, v in coords.items()}}
+    mon.origin = 'accessor'
+    try:
+        want = geom.angle(np.broadcast_to(inc, sca.shape), sca)
+        _judge_two_theta_routes(ctx, scn, da, want, case, 'nearly_uniform.accessor.two_theta', where=where)
+        for k, w in (('L1', geom.norm(inc)), ('L2', geom.norm(sca)),
+                     ('Ltotal_noscatter', geom.norm(pos - source))):
+            r = scn.Ltotal(da, scatter=False) if k.startswith('Ltotal') else getattr(scn, k)(da)
+            g = np.asarray(r.values).astype(si.LD)
+            d = float(np.max(si.relerr(np.broadcast_to(g, np.shape(w)), w))) if np.ndim(g) <= np.ndim(w) else np.inf
+            ctx.event('nearly_uniform.accessor.' + k)
+            ctx.dev('nearly_uniform.accessor.' + k, d)
+            if not d <= 8 * EPS or r.unit != sc.Unit(unit):
+                ctx.violation('accessor', f'scippneutron.{k} with {where} (spread {spread}): deviation {d:.3g} '
+                              f'or wrong unit ({r.unit})', dict(case, accessor=k), accessor=k)
+        for k, w in (('incident_beam', inc), ('scattered_beam', sca)):
+            r = getattr(scn, k)(da)
+            ctx.event('nearly_uniform.accessor.' + k)
+            g = np.asarray(r.values)
+            if g.shape != w.shape or not np.array_equal(g, w) or r.unit != sc.Unit(unit):
+                ctx.violation('accessor', f'scippneutron.{k} with {where} (spread {spread}) is not the per-pixel '
+                              'difference of the positions', dict(case, accessor=k), accessor=k)
+    finally:
+        mon.origin = 'direct'
+    return ('nearly_uniform_positions', where, spread, form, decade, unit, container)
+
+
+def forced_sweeps(rng, ctx, scn, K, mon, index, rep):
+    """The classes every shard runs whatever the random draws are."""
+    kinds = sorted(set(CONTAINERS))
+    # data with supplied lengths: every form x every route, containers / dtypes rotate with the shard
+    for j, form in enumerate(SUPPLIED_FORMS):
+        container = kinds[(j + index + rep) % len(kinds)]
+        dtype = LENGTH_DTYPES[(j + index // 2 + rep) % 3] if 'another' not in form else 'float64'
+        try:
+            ctx.case(supplied_lengths_case(rng, ctx, scn, mon, form, container, dtype))
+        except Exception as e:  # noqa: BLE001
+            mon.origin = 'direct'
+            ctx.violation('accessor_raised', f'data with supplied coordinates ({form}) on a {container} raised '
+                          f'{type(e).__name__}: {e}', {'family': 'supplied', 'form': form, 'container': container},
+                          container=container)
+    # nearly uniform per-pixel beams: which x spread x form in every shard; norm decade, layout, units rotate
+    j = 0
+    for which in UNIFORM_WHICH:
+        for spread in SPREADS:
+            for form in SPREAD_FORMS:
+                t = j + index + 7 * rep
+                decade = NORM_DECADES[t % len(NORM_DECADES)]
+                layouts = NU_LAYOUTS if which != 'both' else NU_LAYOUTS[:3]
+                layout = layouts[(t // 2) % len(layouts)]
+                u1 = LEN_UNITS[(t // 3) % 5]
+                u2 = LEN_UNITS[(t // 3 + (t % 3 == 0)) % 5]
+                try:
+                    ctx.case(nearly_uniform_kernel_case(rng, ctx, K, which, spread, form, decade, layout, u1, u2))
+                except Exception as e:  # noqa: BLE001
+                    ctx.violation('kernel_raised_outer', f'{type(e).__name__}: {e}',
+                                  {'family': 'nearly uniform', 'which': which, 'spread': spread, 'layout': layout})
+                j += 1
+    j = 0
+    for where in NU_POSITIONS:
+        for spread in (*SPREADS, 'independent'):
+            t = j + index + 5 * rep
+            form = SPREAD_FORMS[t % 3]
+            decade = NORM_DECADES[(t // 3) % len(NORM_DECADES)]
+            unit = LEN_UNITS[(t // 2) % 5]
+            container = kinds[t % len(kinds)]
+            try:
+                ctx.case(nearly_uniform_positions_case(rng, ctx, scn, mon, where, spread, form, decade, unit,
+                                                       container))
+            except Exception as e:  # noqa: BLE001
+                mon.origin = 'direct'
+                ctx.violation('accessor_raised', f'accessors with {where} (spread {spread}) on a {container} raised '
+                              f'{type(e).__name__}: {e}', {'family': 'nearly uniform positions', 'where': where,
+                                                           'container': container}, container=container)
+            j += 1
+
+
 # ---------------------------------------------------------------- driver ---
 def plan(tier, seed):
     n_shards = 16
-    return [{'direct': 200 if tier == 'quick' else 10000, 'families': 40 if tier == 'quick' else 2000}
+    return [{'direct': 200 if tier == 'quick' else 10000, 'families': 40 if tier == 'quick' else 2000,
+             'sweeps': 1 if tier == 'quick' else 30}
             for _ in range(n_shards)]
 
 
@@ -495,7 +860,16 @@ def requirements(tier):
                           'invariance.translation', 'invariance.swap')}
     return {'events': ev, 'forced': ['angle:' + c for c in ANGLE_CLASSES] + ['axis-aligned beamline, sample at origin', 'per-pixel incident, scalar scattered', 'beams along different dimensions']
             + ['accessor container ' + c for c in sorted(set(CONTAINERS))]
-            + ['scatter flag given as ' + f.__name__ for f in FLAG_FORMS]}
+            + ['scatter flag given as ' + f.__name__ for f in FLAG_FORMS]
+            + ['supplied coordinates: ' + f for f in SUPPLIED_FORMS]
+            + ['supplied length dtype ' + d for d in LENGTH_DTYPES]
+            + ['nearly uniform per-pixel beams: ' + w for w in UNIFORM_WHICH]
+            + ['nearly uniform spread ' + x for x in SPREADS]
+            + ['nearly uniform form: ' + f for f in SPREAD_FORMS]
+            + [f'nearly uniform beam norm 1e{d}' for d in NORM_DECADES]
+            + ['nearly uniform layout: ' + x for x in NU_LAYOUTS]
+            + ['nearly uniform positions: ' + w for w in NU_POSITIONS]
+            + ['per-pixel positions spread ' + x for x in (*SPREADS, 'independent')]}
 
 
 def run(shard, ctx):
@@ -544,6 +918,8 @@ def run(shard, ctx):
                 mon.origin = 'direct'
                 ctx.violation('accessor_raised', f'accessor on a {container} raised {type(e).__name__}: {e}',
                               {'family': 'accessors', 'container': container}, container=container)
+        for rep in range(shard.get('sweeps', 1)):
+            forced_sweeps(rng, ctx, scn, K, mon, shard['index'], rep)
     ctx.extra['mpmath_selftest'] = _selftest(ctx, rng)
 
 
@@ -574,7 +950,9 @@ TECHNIQUE = ('runtime monitors (sys.monitoring) on the 7 geometry kernels and th
 LEVEL_TEXT = ('exploration: every observed return of the geometry kernels (direct, through the accessors and '
               'through the shipped graphs) is compared with the Euclidean definition; 2theta against the exact '
               'angle between the float64 beams at 1e-14 rad in forced near-0 / pi/2 / pi classes, plus swap, '
-              'rescale, rotation and translation invariance on observed values. Sampled inputs, not a proof.')
+              'rescale, rotation and translation invariance on observed values; data with supplied L1/L2/Ltotal '
+              'coordinates and nearly uniform per-pixel beams are judged per pixel against the same definition. '
+              'Sampled inputs, not a proof.')
 LEVEL_NOTE = ('trusted: numpy long double, mpmath (self-test), scipp vector containers and broadcasting, '
               'IEEE float64 subtraction as the model of a position difference')
 DESIGN_REF = 'DESIGN.md section 4, C03'
